@@ -32,13 +32,8 @@ func init() {
 			}
 			return 160
 		},
-		Batches: func(t string) int {
-			if t == ev.Thorough {
-				return 16
-			}
-			return 8
-		},
-		Rule: "each case = 125 sequential histories + 1 concurrent history. Sequential history: real MapDB seeded with random content over 3 buckets x 8 keys (empty key, keys that are prefixes of each other, same key bytes in different buckets), 1-3 stacked db.NewLayerDB levels, 20-70 random ops (set/delete/get/has on a random level incl. direct writes below an open layer, old and re-fetched bucket handles, caller buffer scribbled after Set, Flush(true)/Flush(false) on a random level, repeated flushes, post-commit pass-through, post-discard reuse); reference = overlay model (per level: map key->value|tombstone over the level below). Every Get/Has compared; after every flush all levels x all buckets x all keys compared. Concurrent history (race build): 4 writer goroutines on disjoint keys of shared buckets through one layer while another goroutine commits. Non-trivial = distinct sequential history in which a flush hit a level whose overlay held at the same time a write of a new value and a tombstone over a key present below.",
+		Batches: func(t string) int { return 16 },
+		Rule:    "each case = 125 sequential histories + 1 concurrent history. Sequential history: real MapDB seeded with random content over 3 buckets x 8 keys (empty key, keys that are prefixes of each other, same key bytes in different buckets), 1-3 stacked db.NewLayerDB levels, 20-70 random ops (set/delete/get/has on a random level incl. direct writes below an open layer, old and re-fetched bucket handles, caller buffer scribbled after Set, Flush(true)/Flush(false) on a random level, repeated flushes, post-commit pass-through, post-discard reuse); reference = overlay model (per level: map key->value|tombstone over the level below). Every Get/Has compared; after every flush all levels x all buckets x all keys compared. Concurrent history (race build): 4 writer goroutines on disjoint keys of shared buckets through one layer while another goroutine commits. Non-trivial = distinct sequential history in which a flush hit a level whose overlay held at the same time a write of a new value and a tombstone over a key present below.",
 		MinNonTrivial: func(t string) int {
 			if t == ev.Thorough {
 				return 200000
